@@ -597,6 +597,21 @@ class Mesh2DTopology:
 
     @utils.timed_func
     def make_edge_node_array(self) -> numpy.ndarray:
+        if self.has_valid_face_edge_connectivity:
+            # The dataset numbers its edges through face_edge_connectivity.
+            # Keep that numbering: the edge in column k of a face
+            # joins the k-th pair of consecutive nodes of that face.
+            face_edge = self._to_index_array(
+                self.face_edge_connectivity, self.face_dimension)
+            edge_count = int(face_edge.max()) + 1
+            with suppress(KeyError):
+                edge_count = self.dataset.sizes[self.edge_dimension]
+            edge_node = numpy.zeros((edge_count, 2), dtype=self.sensible_dtype)
+            for face_index, node_pairs in self._face_and_node_pair_iter():
+                for column, pair in enumerate(node_pairs):
+                    edge_node[face_edge[face_index, column]] = sorted(pair)
+            return edge_node
+
         # Each edge is composed of two nodes. Each edge may be named twice,
         # once for each face. To de-duplicate this, edges are built up using
         # this dict-of-sets, where the dict index is the node with the
